@@ -213,6 +213,14 @@ def run(case, ctx):
             ctx.violate(f"C01/{r.key()}/{cname}", f"test_all: {r!r}")
         elif r is not all(exp):
             ctx.violate(f"C01/test_all/{cname}", f"test_all gave {r!r}, items {exp}")
+        okd, Dw = call(valida.Data, cont)
+        if okd:
+            ok, r = call(cond.test_all, Dw)  # the same question with the container handed over wrapped
+            ctx.count("entry:test_all(Data)")
+            if not ok:
+                ctx.violate(f"C01/{r.key()}/{cname}", f"test_all(Data): {r!r}")
+            elif r is not all(exp):
+                ctx.violate(f"C01/test_all/{cname}", f"test_all(Data(...)) gave {r!r}, items {exp}")
     if kind == "value":
         for i, (k, v) in enumerate(items[:4]):
             if exp[i] is M.SKIP:
